@@ -518,3 +518,21 @@ func init() {
 		return vm.ts.Bool(args[0].(*Term).op == OpConst)
 	}
 }
+
+func init() {
+	// math/bits.OnesCount*: same canonical bit-sum term as the specification-side vsym.PopCount64, so that library and
+	// oracle popcounts of the same word are the same term (the real SWAR code is proved equivalent in `symgo selftest`).
+	for _, w := range []string{"8", "16", "32", "64", ""} {
+		intrinsics["math/bits.OnesCount"+w] = func(vm *VM, fr *frame, args []Value, cc *ssa.CallCommon) Value {
+			x := args[0].(*Term)
+			if x.op == OpConst {
+				n := 0
+				for c := x.c; c != 0; c &= c - 1 {
+					n++
+				}
+				return vm.ts.BV(64, uint64(n))
+			}
+			return vm.ts.ZExt(vm.ts.PopCount(x), 64)
+		}
+	}
+}
